@@ -365,3 +365,7 @@ mod tests {
         assert_eq!(buffer.size_hint(), (10, Some(10)));
     }
 }
+
+#[cfg(futures_buffered_verif)]
+#[path = "/verif/hooks/futures_ordered_bounded.rs"]
+mod verif_hooks;
